@@ -11,12 +11,13 @@ Open Scope Z_scope.
    predict returns exactly [h all-false false x_i args_i | i < n] in input order -- a tensor for
    single-output models, one tensor per output for tuple / list models -- and the trace of
    forward calls is the list of windows of range(0, n, min(b, n)), each with the training flag
-   of EVERY sub-module false and grad = false, with X and every arg sliced by the same window. *)
+   of EVERY sub-module false and grad = false, with X and every arg sliced by the same window and
+   every arg handed over in the dtype [adt] the caller gave it (rows are exact values).       *)
 Theorem c03_predict_examplewise :
-  forall (k : okind) (hs : list head) (s0 : mstate) (b : Z) (X : list row) (args : list arg),
+  forall (k : okind) (hs : list head) (s0 : mstate) (b : Z) (X : list row) (args : list arg) (adt : list nat),
     1 <= b -> X <> [] -> Forall (fun a => length a = length X) args ->
-    predict_model (g_ex k hs) s0 b X args
-    = (Ok (expected k hs (all_eval (training s0)) X args), expected_trace (all_eval (training s0)) b X args).
+    predict_model (g_ex k hs) s0 b X args adt
+    = (Ok (expected k hs (all_eval (training s0)) X args), expected_trace (all_eval (training s0)) b X args adt).
 Proof. exact predict_examplewise. Qed.
 Print Assumptions c03_predict_examplewise.
 
@@ -24,10 +25,10 @@ Print Assumptions c03_predict_examplewise.
    each arg; the windows of X, of each arg, and of the aligned tuples partition the input in
    order *)
 Theorem c03_trace_facts :
-  forall (fl0 : list bool) (b : Z) (X : list row) (args : list arg),
+  forall (fl0 : list bool) (b : Z) (X : list row) (args : list arg) (adt : list nat),
     1 <= b -> X <> [] -> Forall (fun a => length a = length X) args ->
-    let t := expected_trace (all_eval fl0) b X args in
-    Forall (fun r => Forall (fun t => t = false) (cr_training r) /\ cr_grad r = false /\
+    let t := expected_trace (all_eval fl0) b X args adt in
+    Forall (fun r => Forall (fun t => t = false) (cr_training r) /\ cr_grad r = false /\ cr_adt r = adt /\
                      exists s, (s < length X)%nat /\
                                cr_X r = window s (batch_of b X) X /\
                                cr_args r = map (window s (batch_of b X)) args) t /\
@@ -40,9 +41,9 @@ Print Assumptions c03_trace_facts.
 
 (* a mismatched leading dimension is rejected, for every user model, before any forward call *)
 Theorem c03_rejects_misaligned :
-  forall g s0 b X args,
+  forall g s0 b X args adt,
     forallb (fun a => (length a =? length X)%nat) args = false ->
-    predict_model g s0 b X args = (Err, []).
+    predict_model g s0 b X args adt = (Err, []).
 Proof. exact predict_rejects_misaligned. Qed.
 Print Assumptions c03_rejects_misaligned.
 
@@ -59,13 +60,14 @@ Print Assumptions c03_trace.
 
 (* the hypotheses are satisfiable: n = 5, b = 2 (n mod b <> 0), two args with per-example
    distinct values, tuple output with two heads; the last batch is the partial one; the module
-   is handed over with the root in evaluation mode and two of its children in training mode *)
+   is handed over with the root in evaluation mode and two of its children in training mode; the
+   args are a float64 and an int64 tensor (dtype codes 1, 3) and reach the model as such *)
 Example c03_example :
   model (Call KTuple 2 (MS [false; true; true] true) 2 [[1];[2];[3];[4];[5]]
-              [[[10];[20];[30];[40];[50]]; [[7;7];[8;8];[9;9];[6;6];[5;5]]])
+              [[[10];[20];[30];[40];[50]]; [[7;7];[8;8];[9;9];[6;6];[5;5]]] [1%nat; 3%nat])
   = (Ok (YM [[[1;10;7;7];[2;20;8;8];[3;30;9;9];[4;40;6;6];[5;50;5;5]];
              [[2;20;14;14];[4;40;16;16];[6;60;18;18];[8;80;12;12];[10;100;10;10]]]),
-     [CR [false; false; false] false [[1];[2]] [[[10];[20]]; [[7;7];[8;8]]];
-      CR [false; false; false] false [[3];[4]] [[[30];[40]]; [[9;9];[6;6]]];
-      CR [false; false; false] false [[5]] [[[50]]; [[5;5]]]]).
+     [CR [false; false; false] false [[1];[2]] [[[10];[20]]; [[7;7];[8;8]]] [1%nat; 3%nat];
+      CR [false; false; false] false [[3];[4]] [[[30];[40]]; [[9;9];[6;6]]] [1%nat; 3%nat];
+      CR [false; false; false] false [[5]] [[[50]]; [[5;5]]] [1%nat; 3%nat]]).
 Proof. vm_compute. reflexivity. Qed.
